@@ -988,9 +988,11 @@ class Engine:
                 # no processes ran, jump to next process
                 next_event = end_time
                 for path in self.front.keys():
-                    if self.front[path]['time'] < next_event:
+                    if self.global_time < self.front[path]['time'] < next_event:
                         next_event = self.front[path]['time']
                 self.global_time = next_event
+                for quiet in quiet_paths:
+                    self.front[quiet] = empty_front(self.global_time)
 
             elif self.global_time + full_step <= end_time:
                 # at least one process ran within the interval
